@@ -71,24 +71,49 @@ func Load(opt LoadOptions) (*Engine, error) {
 	if len(patterns) == 0 {
 		patterns = append([]string{"./cmd/...", "./internal/...", "./pkg/..."}, dirs...)
 	}
-	pkgs, err := packages.Load(cfg, patterns...)
-	if err != nil {
-		return nil, err
-	}
-	var errs []string
-	packages.Visit(pkgs, nil, func(p *packages.Package) {
-		for _, e := range p.Errors {
-			errs = append(errs, e.Error())
+	// A harness file that no longer type-checks against the tree (a function it calls changed its
+	// signature, a helper it uses sits in a file that was dropped) is replaced by an empty file and the
+	// load is repeated: its harnesses are reported as not runnable, the others still run.
+	var pkgs []*packages.Package
+	dropped := map[string][]string{}
+	for round := 0; ; round++ {
+		pkgs, err = packages.Load(cfg, patterns...)
+		if err != nil {
+			return nil, err
 		}
-	})
-	if len(errs) > 0 {
-		if len(errs) > 10 {
-			errs = errs[:10]
+		var errs []string
+		bad := map[string][]string{}
+		foreign := false
+		packages.Visit(pkgs, nil, func(p *packages.Package) {
+			for _, e := range p.Errors {
+				errs = append(errs, e.Error())
+				file := e.Pos
+				if k := strings.Index(file, ":"); k > 0 {
+					file = file[:k]
+				}
+				if _, isHarness := ov[file]; isHarness && strings.HasPrefix(filepath.Base(file), "zz_verif_") {
+					bad[file] = append(bad[file], e.Error())
+				} else {
+					foreign = true
+				}
+			}
+		})
+		if len(errs) == 0 {
+			break
 		}
-		return nil, fmt.Errorf("load errors:\n%s", strings.Join(errs, "\n"))
+		if foreign || len(bad) == 0 || round > 6 {
+			if len(errs) > 10 {
+				errs = errs[:10]
+			}
+			return nil, fmt.Errorf("load errors:\n%s", strings.Join(errs, "\n"))
+		}
+		for file, es := range bad {
+			dropped[file] = es
+			ov[file] = emptyHarnessFile(ov[file])
+		}
 	}
 	prog, _ := ssautil.AllPackages(pkgs, ssa.InstantiateGenerics|ssa.SanityCheckFunctions&0)
-	e := &Engine{Prog: prog, Pkgs: map[string]*ssa.Package{}, Cfg: DefaultConfig(), Fset: prog.Fset}
+	e := &Engine{Prog: prog, Pkgs: map[string]*ssa.Package{}, Cfg: DefaultConfig(), Fset: prog.Fset, Dropped: dropped}
 	e.Sizes = types.SizesFor("gc", "amd64")
 	// module path
 	for _, p := range pkgs {
@@ -113,4 +138,31 @@ func Load(opt LoadOptions) (*Engine, error) {
 	e.intr = map[string]intrinsic{}
 	registerIntrinsics(e)
 	return e, nil
+}
+
+
+// emptyHarnessFile keeps the build constraint and the package clause of a harness file.
+func emptyHarnessFile(src []byte) []byte {
+	var out []string
+	for _, line := range strings.Split(string(src), "\n") {
+		t := strings.TrimSpace(line)
+		if strings.HasPrefix(t, "//") || t == "" {
+			out = append(out, line)
+			continue
+		}
+		if strings.HasPrefix(t, "package ") {
+			out = append(out, line)
+		}
+		break
+	}
+	return []byte(strings.Join(out, "\n") + "\n")
+}
+
+// EmptyHarnessFile is the empty replacement of the harness file mapped to the given repository path.
+func EmptyHarnessFile(realOrVirtual string) []byte {
+	b, err := os.ReadFile(realOrVirtual)
+	if err != nil {
+		return []byte("//go:build verif\n\npackage " + filepath.Base(filepath.Dir(realOrVirtual)) + "\n")
+	}
+	return emptyHarnessFile(b)
 }
